@@ -210,11 +210,32 @@ def render(w, threads):
     return lines
 
 
+SECOND_FEATURE = "unstable_dropck_eyepatch"   # selects a different `Drop for Arc` impl (#[may_dangle]); nightly only
+
+
 def run(prop, tier, spec):
+    """default feature set, then - when the crate has it - the configuration that compiles the other Drop impl"""
+    res = _run_cfg(prop, tier, spec, ("--features", "std"), "", None)
+    try:
+        has = re.search(r"^%s\s*=" % SECOND_FEATURE, open(os.path.join(REPO, "Cargo.toml")).read(), re.M) is not None
+    except OSError:
+        has = False
+    if has:
+        r2 = _run_cfg(prop, tier, spec, ("--features", "std " + SECOND_FEATURE), SECOND_FEATURE, 12 if tier == "quick" else 60)
+        res["violations"] += r2["violations"]
+        res["inconclusive"] += r2["inconclusive"]
+        res["queries"] += r2["queries"]
+        res["nontrivial"] += r2["nontrivial"]
+        res["coverage"]["configuration_" + SECOND_FEATURE] = {k: r2["coverage"].get(k) for k in
+            ("mir_dump_cmd", "functions_symbolically_executed", "scenarios", "scenarios_hold", "solver_seconds", "templates")}
+    return res
+
+
+def _run_cfg(prop, tier, spec, features, label, limit):
     t0 = time.time()
     res = {"violations": [], "inconclusive": [], "queries": 0, "nontrivial": 0, "coverage": {}, "assumptions": []}
     try:
-        mirpath, mircmd = dump_mir()
+        mirpath, mircmd = dump_mir(features)
     except Exception as e:
         res["inconclusive"].append({"error": str(e)})
         return res
@@ -249,6 +270,9 @@ def run(prop, tier, spec):
         res["inconclusive"].append({"error": "RC11 encoder self-test failed: " + "; ".join(lb)})
     res["queries"] += 2 * 7
     scs = family(prop, tier)
+    if limit:
+        # second configuration: only the programs that release a handle (the code that differs), fewest events first
+        scs = sorted([x for x in scs if any("drop" in op or "unwrap" in op for t in x[1] for op in t)], key=lambda x: sum(len(t) for t in x[1]))[:limit]
     tmo = 120000 if tier == "quick" else 600000
     jobs = [(i, n, t, s, j, tmo) for i, (n, t, s, j) in enumerate(scs)]
     nproc = min(int(os.environ.get("VERIF_JOBS", "12")), max(1, len(jobs)))
@@ -278,9 +302,9 @@ def run(prop, tier, spec):
                 agree, cv = cvc5_agrees(o["smt2"], WORK, f"{prop}-wmm-{o['idx']}")
             else:
                 agree, cv = None, "not re-decided (limit of 2 cvc5 cross-checks per run)"
-            key = f"{prop}:wmm:" + "|".join(",".join(t) for t in threads)
+            key = f"{prop}:wmm:" + (label + ":" if label else "") + "|".join(",".join(t) for t in threads)
             path = os.path.join(REPLAYS, prop, "wmm-%s.json" % hashlib.sha1(key.encode()).hexdigest()[:10])
-            art = {"engine": "wmm", "property": prop, "key": key, "scenario": desc, "witness": o["witness"],
+            art = {"engine": "wmm", "property": prop, "key": key, "features": list(features), "scenario": desc, "witness": o["witness"],
                    "trace": render(o["witness"], threads), "witness_check": why, "cvc5": cv,
                    "note": "weak-memory executions cannot be forced on x86 hardware; the witness is validated by an independent "
                            "RC11 checker and a second solver instead of a native run",
@@ -288,9 +312,9 @@ def run(prop, tier, spec):
             with open(path, "w") as f:
                 json.dump(art, f, indent=1)
             if ok and agree is not False:
-                res["violations"].append({"key": key, "scenario": name + " " + json.dumps(threads), "what": "; ".join(d for _, d in o["violated"][:2]), "replay": path})
+                res["violations"].append({"key": key, "scenario": (f"[{label}] " if label else "") + name + " " + json.dumps(threads), "what": "; ".join(d for _, d in o["violated"][:2]), "replay": path})
             else:
-                res["inconclusive"].append({"error": f"counterexample for {name} not confirmed (witness check: {why}; cvc5: {cv})"})
+                res["inconclusive"].append({"error": f"{label} counterexample for {name} not confirmed (witness check: {why}; cvc5: {cv})"})
         else:
             res["inconclusive"].append({"error": f"scenario {name} {threads}: {o.get('why')}"})
     sys.path.insert(0, WMM)
@@ -318,7 +342,7 @@ def run(prop, tier, spec):
         os.remove(mirpath + ".err")
     except OSError:
         pass
-    log(f"[{prop}] weak-memory engine: {len(scs)} scenarios, {holds} hold, {len(res['violations'])} violate, {len(res['inconclusive'])} inconclusive, {time.time()-t0:.1f}s")
+    log(f"[{prop}] weak-memory engine{' (' + label + ')' if label else ''}: {len(scs)} scenarios, {holds} hold, {len(res['violations'])} violate, {len(res['inconclusive'])} inconclusive, {time.time()-t0:.1f}s")
     return res
 
 
@@ -417,7 +441,7 @@ def _z3v():
 
 def replay(prop, art):
     """Re-decide the scenario of a recorded counterexample against the current tree."""
-    mirpath, _ = dump_mir()
+    mirpath, _ = dump_mir(tuple(art.get("features") or ("--features", "std")))
     _init(mirpath)
     sc = art["scenario"]
     o = _one((0, sc["scenario"], sc["threads"], {int(k): tuple(v) for k, v in sc["spawned"].items()},
